@@ -19,14 +19,15 @@ PROP = "C10"
 DRIVER_MODULES = ["PsutilModel.Model.C10Gen", "PsutilModel.Model.C10Front", "PsutilModel.Model.C10Conc",
                   "PsutilModel.Model.C10Dict", "PsutilModel.Spec.C10"]
 FINDING_FORMS = "C10-forms-share-cache"
+FINDING_SAMPLE = "C10-sample-outside-lock"
 NEEDS_EXT = True
 TRUSTED = [
     "C10 model: two levels — the three dicts of _WrapNumbers as they are (association lists in insertion order, defaultdict reads, KeyError/AssertionError/IndexError branches; cache_info() = their value at the time of the call, the aliasing of the returned dicts is not modelled) and, proved equal to it on every uniform-width history (C10_concrete_refines), the abstract state with reminders as a total function (0 = absent); the kernel listing (device, whole disk?, counters) is the input (C09 covers how it is parsed)",
-    "C10 concurrency: bodies of run()/cache_clear() are modelled as load + store under the lock; the raw sample is taken outside the lock (explicit `sample` action: lock order need not be sampling order)",
+    "C10 concurrency: bodies of run()/cache_clear() are modelled as load + store under `_wn.lock`; the raw sample is an explicit `sample` action, outside every lock or (fact sampleUnderLock) inside the front ends' sampling lock, whose acquire/release are merged with the sample and with the release of `_wn.lock` (adds behaviours only); `Sys.samples` is a ghost record of the order of the platform calls",
 ]
 MANIFEST = {
-    "level_text": "Machine-checked Lean 4 proof that the model of the public front ends (per-device and system-wide form, Linux perdisk filter, cache_clear of one or two names) + _WrapNumbers.run/cache_clear refines a history-defined specification for EVERY history (C10_refines, C10_front_refines: any number of wraps, devices appearing/vanishing/reappearing, empty snapshots, cache_clear anywhere, alternating nowrap, both functions and both forms interleaved), that the system-wide form is the field-wise sum of the adjusted per-device tuples (C10_total_is_sum, C10_total_field) and never decreases while no device vanishes (C10_total_monotone; proved counterexample C10_total_drops_when_device_vanishes for the unrestricted statement), with corollaries C10_monotone, C10_value_formula, C10_reappear_fresh, C10_cache_clear_forgets, C10_nowrap_false_raw, C10_names_independent, and that every interleaving of any number of threads equals the serial execution in lock-acquisition order (C10_serialisable, C10_concurrent_refines; counterexample C10_unlocked_not_serialisable; characterisation C10_lock_order_is_not_sampling_order of the stated limit that the raw sample is taken outside the lock, replayed on two real threads). The three dicts of _WrapNumbers are modelled as they are in the code and proved to refine the abstract model after every history (C10_concrete_refines: same return values, no KeyError/AssertionError), with the invariant reminder_keys = support of reminders stated separately (C10_reminder_keys_support; what-if counterexample C10_reminder_keys_overwrite_counterexample for a set that is assigned instead of added to) and the value of cache_info() characterised from the history alone (C10_cache_info_reflects). Proved counterexamples for the pre-fix front end (C10_reappear_needs_empty_feed) and for the two forms of disk_io_counters sharing one cache name on Linux (C10_forms_share_history_counterexample, kept for the shared-name configuration sharedCfg: the defect was fixed in /repo by a52899b); for the repaired front end the full statement is proved (C10_present_monotone: after any history, any listings, any number of system-wide calls in between, a disk that stays listed never goes backwards between two perdisk=True calls; instantiated as C10_present_monotone_cfg through the obligation cfg_forms_good). The model is tied to the code by 13 translator facts (empty-snapshot handling, cache names per form, names cleared, wrap comparison, Linux perdisk filter, run/cache_clear/cache_info under the lock, reminder_keys only ever added to) feeding cfg_good / cfg_good_conc / cfg_forms_good / cfg_good_dict, and by a differential run of the real front-end functions against model and specification on generated and exhaustively enumerated histories (return values after every step, cache_info() against the concrete-dict model and against the history-defined specification), including 2-3 real threads whose observed schedule is replayed through the Lean lock model.",
-    "level_note": "Trusted: Lean kernel + {propext, Classical.choice, Quot.sound}; the translator; the correspondence harness; the aliasing of the dicts cache_info() returns is not modelled (its value at call time is); uniform tuple width and unique device names per snapshot are hypotheses (true of every platform layer's output); the raw sample is taken outside the lock.",
+    "level_text": "Machine-checked Lean 4 proof that the model of the public front ends (per-device and system-wide form, Linux perdisk filter, cache_clear of one or two names) + _WrapNumbers.run/cache_clear refines a history-defined specification for EVERY history (C10_refines, C10_front_refines: any number of wraps, devices appearing/vanishing/reappearing, empty snapshots, cache_clear anywhere, alternating nowrap, both functions and both forms interleaved), that the system-wide form is the field-wise sum of the adjusted per-device tuples (C10_total_is_sum, C10_total_field) and never decreases while no device vanishes (C10_total_monotone; proved counterexample C10_total_drops_when_device_vanishes for the unrestricted statement), with corollaries C10_monotone, C10_value_formula, C10_reappear_fresh, C10_cache_clear_forgets, C10_nowrap_false_raw, C10_names_independent, and that every interleaving of any number of threads equals the serial execution in lock-acquisition order (C10_serialisable, C10_concurrent_refines; counterexample C10_unlocked_not_serialisable; finding C10-sample-outside-lock: with the raw sample taken outside every lock the calls need not go through _wn.lock in the order they read the kernel — counterexample C10_lock_order_is_not_sampling_order, 100/105/110 reported as 105/205/215, forced on two real threads; the full concurrent statement C10_concurrent_Full — lock order of the calls = sampling order, each nowrap=True call returns `expected` over exactly the snapshots sampled before its own — is proved for every configuration that samples under the front ends' lock (C10_concurrent_full_strength, instantiated as C10_concurrent_full_strength_fixed for the current source with fixes/C10-sample-under-lock; obligation cfg_sample_under_lock to be switched on when the fix has landed). The three dicts of _WrapNumbers are modelled as they are in the code and proved to refine the abstract model after every history (C10_concrete_refines: same return values, no KeyError/AssertionError), with the invariant reminder_keys = support of reminders stated separately (C10_reminder_keys_support; what-if counterexample C10_reminder_keys_overwrite_counterexample for a set that is assigned instead of added to) and the value of cache_info() characterised from the history alone (C10_cache_info_reflects). Proved counterexamples for the pre-fix front end (C10_reappear_needs_empty_feed) and for the two forms of disk_io_counters sharing one cache name on Linux (C10_forms_share_history_counterexample, kept for the shared-name configuration sharedCfg: the defect was fixed in /repo by a52899b); for the repaired front end the full statement is proved (C10_present_monotone: after any history, any listings, any number of system-wide calls in between, a disk that stays listed never goes backwards between two perdisk=True calls; instantiated as C10_present_monotone_cfg through the obligation cfg_forms_good). The model is tied to the code by 14 translator facts (empty-snapshot handling, cache names per form, names cleared, wrap comparison, Linux perdisk filter, run/cache_clear/cache_info under the lock, reminder_keys only ever added to, raw sample + wrap_numbers under one front-end lock) feeding cfg_good / cfg_good_conc / cfg_forms_good / cfg_good_dict, and by a differential run of the real front-end functions against model and specification on generated and exhaustively enumerated histories (return values after every step, cache_info() against the concrete-dict model and against the history-defined specification), including 2-3 real threads whose observed schedule is replayed through the Lean lock model.",
+    "level_note": "Trusted: Lean kernel + {propext, Classical.choice, Quot.sound}; the translator; the correspondence harness; the aliasing of the dicts cache_info() returns is not modelled (its value at call time is); uniform tuple width and unique device names per snapshot are hypotheses (true of every platform layer's output); whether the raw sample is taken under a lock is a translator fact (finding C10-sample-outside-lock while it is not).",
     "technique": "Lean 4 refinement proof by induction over histories (invariant of _WrapNumbers) + data refinement from the concrete dicts to the abstract state + small-step lock model with serialisability invariant + translator-fed proof obligations + differential correspondence with exhaustive short histories and replayed real-thread schedules",
     "design_ref": "DESIGN.md §5 C10",
 }
@@ -136,10 +137,11 @@ def _linux_filter(init, pslinux):
             forwards = True
     calls = extract.calls_in(fn, "disk_io_counters")
     plat = [c for c in calls if extract.dotted(c.func) == "_psplatform.disk_io_counters"]
-    if len(plat) != 1:
-        raise NotRecognised("call of _psplatform.disk_io_counters not found exactly once")
-    passes = any(k.arg is None and extract.dotted(k.value) == "kwargs" for k in plat[0].keywords) and forwards
-    explicit = [k for k in plat[0].keywords if k.arg == "perdisk"]
+    if len(plat) not in (1, 2):
+        # one call, or one per branch of `if nowrap:` (fixes/C10-sample-under-lock)
+        raise NotRecognised("call of _psplatform.disk_io_counters not found once or twice")
+    passes = all(any(k.arg is None and extract.dotted(k.value) == "kwargs" for k in c.keywords) for c in plat) and forwards
+    explicit = [k for c in plat for k in c.keywords if k.arg == "perdisk"]
     if explicit:
         raise NotRecognised("perdisk passed in an unrecognised way")
     lfn = extract.find_def(pslinux, "disk_io_counters")
@@ -218,6 +220,45 @@ def _strict_less(tree):
     return found[0]
 
 
+def _sample_under_lock(init):
+    """When `nowrap` is true, do both front ends call the platform function AND `_wrap_numbers` inside one
+    `with <L>:` where `L` is one module-level `threading.Lock()` (and nowhere else)? False when no `_wrap_numbers`
+    call sits in such a block (the front ends before fixes/C10-sample-under-lock)."""
+    locks = {extract.dotted(st.targets[0]) for st in init.body
+             if isinstance(st, ast.Assign) and len(st.targets) == 1 and extract.dotted(st.value) == "threading.Lock()"}
+    verdicts, used = [], set()
+    for fname in ("disk_io_counters", "net_io_counters"):
+        fn = extract.find_def(init, fname)
+        wraps = extract.calls_in(fn, "_wrap_numbers")
+        if not wraps:
+            raise NotRecognised("%s does not call _wrap_numbers" % fname)
+        inside = []
+        for iff in ast.walk(fn):
+            if not (isinstance(iff, ast.If) and extract.dotted(iff.test) == "nowrap"):
+                continue
+            for w in iff.body:
+                if isinstance(w, ast.With) and len(w.items) == 1 and extract.dotted(w.items[0].context_expr) in locks:
+                    plat = [c for c in ast.walk(w) if isinstance(c, ast.Call)
+                            and extract.dotted(c.func) == "_psplatform." + fname]
+                    ws = [c for c in ast.walk(w) if isinstance(c, ast.Call) and c in wraps]
+                    if len(plat) == 1 and ws:
+                        inside += ws
+                        used.add(extract.dotted(w.items[0].context_expr))
+        if not inside:
+            verdicts.append(False)
+        elif len(inside) == len(wraps):
+            verdicts.append(True)
+        else:
+            raise NotRecognised("%s: some _wrap_numbers calls are under the sampling lock, some are not" % fname)
+    if all(verdicts):
+        if len(used) != 1:
+            raise NotRecognised("the two front ends sample under two different locks: %s" % sorted(used))
+        return True
+    if not any(verdicts):
+        return False
+    raise NotRecognised("only one of the two front ends samples under the lock")
+
+
 def _rk_accumulates(tree):
     """Is the only statement of `run` that touches `reminder_keys` the call
     `self.reminder_keys[name][key].add(remkey)`, sitting next to `self.reminders[name][remkey] += old_value` in the
@@ -289,6 +330,8 @@ def facts(snap, F):
               "the only call of _WrapNumbers.run is `_wn.run(...)` inside `with _wn.lock:` in wrap_numbers (one instance, one threading.Lock)")
     F.try_add("clearUnderLock", "Bool", lambda: extract.lean_bool(locks()[1]),
               "the bodies of _WrapNumbers.cache_clear and cache_info are a single `with self.lock:` block")
+    F.try_add("sampleUnderLock", "Bool", lambda: extract.lean_bool(_sample_under_lock(init)),
+              "when nowrap is true both front ends call the platform function and _wrap_numbers inside one `with <module-level threading.Lock()>:` (fixes/C10-sample-under-lock)")
     F.try_add("rkAccumulates", "Bool", lambda: extract.lean_bool(_rk_accumulates(common)),
               "the only statement of run() touching reminder_keys is `self.reminder_keys[name][key].add(remkey)` next to `self.reminders[name][remkey] += old_value`, remkey = (key, i)")
 
@@ -341,6 +384,8 @@ class Impl:
         self.fn = {"disk": self.ps.disk_io_counters, "net": self.ps.net_io_counters}
         # the `name` strings of the cache slots, as the translator extracted them (the driver prints them)
         self.names = ctx.driver().batch([{"op": "names"}])[0]
+        # translator fact: do the front ends take the raw sample under their own lock (fixes/C10-sample-under-lock)?
+        self.sample_under_lock = bool(self.names.get("sample_under_lock"))
 
     def close(self):
         self.plat.disk_io_counters, self.plat.net_io_counters = self.orig
@@ -883,6 +928,7 @@ def correspond(ctx, res):
         conc = concurrent(ctx, impl, res, ctx.n(8, 200))
         res.extra["concurrent_runs"] = conc
         overtake(ctx, impl, res)
+        hold_release(ctx, impl, res)
     finally:
         impl.close()
 
@@ -890,9 +936,10 @@ def correspond(ctx, res):
 class LoggingLock:
     """Stands in for `_wn.lock`: same mutual exclusion (it wraps the real lock), but logs who got it."""
 
-    def __init__(self, real, events):
+    def __init__(self, real, events, after_release=None):
         self.real = real
         self.events = events
+        self.after_release = after_release      # called (outside the lock) right after every release
 
     def __enter__(self):
         self.real.acquire()
@@ -903,6 +950,8 @@ class LoggingLock:
     def __exit__(self, *a):
         self.events.append(("release", threading.get_ident()))
         self.real.release()
+        if self.after_release:
+            self.after_release()
         return False
 
     def acquire(self, *a, **k):
@@ -914,6 +963,8 @@ class LoggingLock:
     def release(self):
         self.events.append(("release", threading.get_ident()))
         self.real.release()
+        if self.after_release:
+            self.after_release()
 
 
 def concurrent(ctx, impl, res, runs):
@@ -1046,6 +1097,16 @@ def concurrent(ctx, impl, res, runs):
                         break
             if model["outs"] != model["serial"]:
                 res.disagree("model", hist, outs, model, None, note="lock model: outs differ from its own serial execution")
+            if not model.get("in_sampling_order", True):
+                # C10_concurrent_Full, first part: the calls must take `_wn.lock` in the order they read the kernel
+                known = any(f.get("id") == FINDING_SAMPLE for f in ctx.findings) and not impl.sample_under_lock
+                if known:
+                    res.known_seen[FINDING_SAMPLE] = res.known_seen.get(FINDING_SAMPLE, 0) + 1
+                res.count("concurrent:runs with a call overtaken between sample and lock")
+                res.disagree("spec", hist, outs, model, m["spec"],
+                             note="a call was overtaken between its platform call and wrap_numbers: the calls went through "
+                                  "the lock in an order different from the one in which they read the kernel's counters",
+                             finding=FINDING_SAMPLE if known else None)
         order = model.get("order", [])
         res.case(("conc", acts), nontrivial=len(set(order)) > 1)
         res.count("family:concurrent")
@@ -1055,12 +1116,21 @@ def concurrent(ctx, impl, res, runs):
     return done
 
 
-def overtake(ctx, impl, res):
-    """C10_lock_order_is_not_sampling_order on two REAL threads, deterministically: thread 0 is held between the
-    platform call (sample 100) and `wrap_numbers` until thread 1 (sample 105) has returned, goes on, and calls once
-    more (110). The real results must be the ones of the Lean lock model for that schedule (105 / 205, 215): the raw
-    sample is taken OUTSIDE the lock. If thread 1 cannot finish while thread 0 is held, sampling has moved under the
-    lock and the model's `sample` action is out of date (model drift)."""
+def _body(t):
+    return [{"a": "acquire", "t": t}, {"a": "load", "t": t}, {"a": "store", "t": t}, {"a": "release", "t": t}]
+
+
+def _per_thread(seq):
+    want = {}
+    for t, o in seq or []:
+        want.setdefault(t, []).append(o)
+    return want
+
+
+def run_overtake(impl):
+    """Two REAL threads, deterministically: thread 0 is held right after its platform call (sample 100) until thread 1
+    (sample 105) has returned from net_io_counters(), goes on, and calls once more (110). Returns (per-thread results,
+    blocked) — blocked = thread 1 could not finish while thread 0 was held, i.e. the sample is taken under a lock."""
     impl.reset()
     w = impl.width["net"]
     tl = threading.local()
@@ -1072,7 +1142,7 @@ def overtake(ctx, impl, res):
         if threading.current_thread().name == "c10-t0" and not state["held"]:
             state["held"] = True
             sampled0.set()
-            if not done1.wait(5):
+            if not done1.wait(1.0):
                 state["blocked"] = True
     impl.sample_hook = hook
     outs = {0: [], 1: []}
@@ -1087,6 +1157,7 @@ def overtake(ctx, impl, res):
 
     def t0():
         call(0, 100)
+        done1.wait(5)       # (when the sample is under a lock thread 1 only gets through now)
         call(0, 110)
 
     def t1():
@@ -1102,27 +1173,141 @@ def overtake(ctx, impl, res):
     finally:
         impl.tl = None
         impl.sample_hook = None
-    body = lambda t: [{"a": "acquire", "t": t}, {"a": "load", "t": t}, {"a": "store", "t": t}, {"a": "release", "t": t}]
+        impl.reset()
+    return outs, state["blocked"]
+
+
+def overtake_schedules(impl):
+    w = impl.width["net"]
     smp = lambda t, v: {"a": "sample", "t": t, "name": "net", "raw": [["eth0", [v] * w]]}
-    acts = [smp(0, 100), smp(1, 105)] + body(1) + body(0) + [smp(0, 110)] + body(0)
-    m = ctx.driver().batch([{"op": "reset"}, {"op": "sched", "acts": acts}])[1]
-    hist = {"concurrent_schedule": acts, "how": "thread 0 held between its platform call and wrap_numbers"}
+    overtaken = [smp(0, 100), smp(1, 105)] + _body(1) + _body(0) + [smp(0, 110)] + _body(0)
+    in_order = [smp(0, 100)] + _body(0) + [smp(1, 105)] + _body(1) + [smp(0, 110)] + _body(0)
+    return overtaken, in_order
+
+
+def overtake(ctx, impl, res):
+    """C10_lock_order_is_not_sampling_order / C10_concurrent_full_strength on two real threads (see run_overtake).
+    What the property promises: the values over the kernel snapshots IN SAMPLING ORDER (100, 105, 110: nothing went
+    backwards, so 100 / 105 / 110). Front ends that sample outside the lock (finding C10-sample-outside-lock) return
+    205 and 215 to thread 0: a failing input, tagged with the finding while it is listed as known. The result must in
+    any case be the one of the Lean lock model for the schedule that was forced."""
+    outs, blocked = run_overtake(impl)
+    overtaken, in_order = overtake_schedules(impl)
+    drv = ctx.driver()
+    m_over = drv.batch([{"op": "reset"}, {"op": "sched", "acts": overtaken}])[1]
+    m_ord = ctx.driver().batch([{"op": "reset"}, {"op": "sched", "acts": in_order}])[1]
+    spec = {t: v for t, v in _per_thread(m_ord["spec"]).items()}           # what the property promises
+    hist = {"scenario": "overtake", "concurrent_schedule": overtaken if not blocked else in_order,
+            "how": "thread 0 held between its platform call (100) and wrap_numbers until thread 1 (105) has returned; "
+                   "then thread 0 calls again (110)"}
+    known = any(f.get("id") == FINDING_SAMPLE for f in ctx.findings)
+    bad = {t: outs.get(t) for t in (0, 1)} != {t: spec.get(t, []) for t in (0, 1)}
+    if bad:
+        if not impl.sample_under_lock and known:
+            res.known_seen[FINDING_SAMPLE] = res.known_seen.get(FINDING_SAMPLE, 0) + 1
+        res.disagree("spec", hist, outs, m_over["model"], m_ord["spec"],
+                     note="the kernel counter read 100, 105, 110 (never backwards) but the caller that was overtaken between "
+                          "its platform call and wrap_numbers got %s: lock order is not sampling order"
+                          % [o.get("raw", o) for o in outs.get(0, [])],
+                     finding=FINDING_SAMPLE if (known and not impl.sample_under_lock) else None)
+    # model ↔ code: the forced schedule must be a run of the lock model with these results
+    m = m_ord if blocked else m_over
     model = m["model"]
-    want = {0: [], 1: []}
-    for t, o in model.get("outs", []):
-        want[t].append(o)
-    if state["blocked"]:
-        res.disagree("model", hist, outs, model, None,
-                     note="thread 1 could not finish while thread 0 was held after its platform call: the raw sample is "
-                          "no longer taken outside the lock (the model's `sample` action is out of date)")
-    elif model.get("kind") != "sched" or outs != want:
-        res.disagree("model", hist, outs, model, m.get("spec"),
+    if impl.sample_under_lock != blocked:
+        res.disagree("model", hist, outs, model, m_ord["spec"],
+                     note="translator fact sampleUnderLock = %s, but thread 1 %s finish while thread 0 was held after its "
+                          "platform call" % (impl.sample_under_lock, "could not" if blocked else "could"))
+    elif model.get("kind") != "sched" or {t: outs.get(t) for t in (0, 1)} != {
+            t: _per_thread(model.get("outs")).get(t, []) for t in (0, 1)}:
+        res.disagree("model", hist, outs, model, m_ord["spec"],
                      note="overtaking between platform call and wrap_numbers: real threads differ from the Lean lock model")
-    inflated = outs[0][-1:] == [{"kind": "dict", "raw": [["eth0", [215] * w]]}]
-    res.case(("conc-overtake", acts), nontrivial=inflated)
+    res.case(("conc-overtake", hist["concurrent_schedule"]), nontrivial=True)
     res.count("family:concurrent_overtake")
-    res.extra["overtake"] = {"thread0": outs[0], "thread1": outs[1],
-                             "note": "kernel counter 100,105,110 never went backwards; lock order != sampling order"}
+    res.extra["overtake"] = {"thread0": outs[0], "thread1": outs[1], "thread1_blocked_while_thread0_held": blocked,
+                             "promised": spec}
+
+
+def run_hold_release(impl):
+    """Two REAL threads, deterministically: thread 0 calls (100), calls again (10) and is held right AFTER the first
+    release of `_wn.lock` inside that second call until thread 1's call (5) has returned. With the whole body of
+    run() under the lock that release is the end of the body and nothing changes (100, 110 / 115). A body that gives
+    the lock back early (seeded C10-4) is overtaken in the middle."""
+    impl.reset()
+    wn = impl.ps._common._wn
+    real_lock = wn.lock
+    w = impl.width["net"]
+    tl = threading.local()
+    impl.tl = tl
+    released0, done1 = threading.Event(), threading.Event()
+    state = {"n": 0}
+    events = []
+
+    def after_release():
+        if threading.current_thread().name == "c10-t0":
+            state["n"] += 1
+            if state["n"] == 2:
+                released0.set()
+                done1.wait(1.0)
+    wn.lock = LoggingLock(real_lock, events, after_release)
+    outs = {0: [], 1: []}
+
+    def call(t, v):
+        tl.listing = [["eth0", True, [v] * w]]
+        try:
+            r = impl.ps.net_io_counters(pernic=True, nowrap=True)
+            outs[t].append({"kind": "dict", "raw": [[k, [int(x) for x in vv]] for k, vv in r.items()]})
+        except Exception as e:  # noqa: BLE001 - an exception is an observable
+            outs[t].append({"kind": "exc", "exc": type(e).__name__})
+
+    def t0():
+        call(0, 100)
+        call(0, 10)
+        released0.set()
+
+    def t1():
+        released0.wait(5)
+        call(1, 5)
+        done1.set()
+    try:
+        ths = [threading.Thread(target=t0, name="c10-t0"), threading.Thread(target=t1, name="c10-t1")]
+        for th in ths:
+            th.start()
+        for th in ths:
+            th.join(20)
+    finally:
+        wn.lock = real_lock
+        impl.tl = None
+        impl.reset()
+    return outs
+
+
+def hold_release(ctx, impl, res):
+    """C10_serialisable on two real threads with a forced schedule (see run_hold_release): the results must be those
+    of the bodies executed serially in lock order — model and history-defined specification."""
+    outs = run_hold_release(impl)
+    w = impl.width["net"]
+    smp = lambda t, v: {"a": "sample", "t": t, "name": "net", "raw": [["eth0", [v] * w]]}
+    acts = [smp(0, 100)] + _body(0) + [smp(0, 10)] + _body(0) + [smp(1, 5)] + _body(1)
+    m = ctx.driver().batch([{"op": "reset"}, {"op": "sched", "acts": acts}])[1]
+    hist = {"scenario": "hold_release", "concurrent_schedule": acts,
+            "how": "thread 0: call(100), call(10) held right after its first release of _wn.lock in the second call until "
+                   "thread 1's call(5) has returned"}
+    got = {t: outs.get(t) for t in (0, 1)}
+    # the specification of the three bodies executed one after the other in lock order (asked for as a sequential
+    # history, so that it is there even when the lock model rejects the schedule: fact runUnderLock = false)
+    seq = ctx.driver().batch([{"op": "reset"}] + [
+        {"op": "fcall", "fn": "net", "nowrap": True, "perdev": True, "listing": [["eth0", True, [v] * w]]}
+        for v in (100, 10, 5)])[1:]
+    spec = {0: [seq[0]["spec"], seq[1]["spec"]], 1: [seq[2]["spec"]]}
+    model = {t: _per_thread(m["model"].get("outs")).get(t, []) for t in (0, 1)}
+    if got != spec:
+        res.disagree("spec", hist, outs, m["model"], spec,
+                     note="a body of run() gave `_wn.lock` back before it was done and was overtaken: thread results %s "
+                          "are not those of the bodies executed serially in lock order" % got)
+    elif got != model:
+        res.disagree("model", hist, outs, m["model"], m["spec"], note="forced schedule: real threads differ from the lock model")
+    res.case(("conc-hold-release", acts), nontrivial=True)
+    res.count("family:concurrent_hold_release")
 
 
 def search(ctx, res, broken):
@@ -1164,7 +1349,25 @@ def shrink(ctx, d):
     return d
 
 
+def _scenario_fails(ctx, name):
+    """re-run a forced two-thread schedule; True iff the real threads still violate the specification"""
+    impl = Impl(ctx)
+    try:
+        r = runner_result()
+        (overtake if name == "overtake" else hold_release)(ctx, impl, r)
+        return any(d["kind"] == "spec" for d in r.disagreements)
+    finally:
+        impl.close()
+
+
+def runner_result():
+    from harness.common import runner
+    return runner.Result()
+
+
 def replay(ctx, rp, res):
+    if rp["input"].get("scenario") in ("overtake", "hold_release"):
+        return _scenario_fails(ctx, rp["input"]["scenario"])
     if rp["input"].get("real_platform_calls"):
         return check_finding(ctx, {"id": FINDING_FORMS,
                                    "witness": {"calls": rp["input"]["real_platform_calls"]}}) == "reproduces"
@@ -1188,6 +1391,17 @@ def check_finding(ctx, fnd):
     import os
     import shutil
     import tempfile
+    if fnd.get("id") == FINDING_SAMPLE:
+        # the deterministic two-real-thread overtake: reproduces iff the overtaken caller's values are inflated
+        impl = Impl(ctx)
+        try:
+            outs, _ = run_overtake(impl)
+        finally:
+            impl.close()
+        w = impl.width["net"]
+        want = fnd.get("witness", {}).get("promised", [100, 110])
+        got = [o["raw"][0][1][0] if o.get("kind") == "dict" and o["raw"] else None for o in outs[0]]
+        return "gone" if got == want else "reproduces"
     if fnd.get("id") != FINDING_FORMS:
         return "unknown"
     ps = ctx.psutil
